@@ -257,6 +257,8 @@ func runC09(t *testing.T, x c09Scn, verbose bool) (c vfCase, out c09Out) {
 		if s.as[X] != nil {
 			if st := s.as[X].getState(); st != closed {
 				c.fail("not-closed", "%s: side %d is in state %s ten minutes after the teardown", x.Kind, X, getAssociationStateString(st))
+			} else if tr := vfTimersRunning(s.as[X]); len(tr) > 0 {
+				c.fail("timer-left-running", "%s at %v: ten minutes after the teardown side %d still has timers armed: %v", x.Kind, down, X, tr)
 			}
 		}
 		// (2) nothing more is written by X (one second of grace for the ABORT / in-progress write)
